@@ -50,8 +50,32 @@ package jsonrpc
 //@   ensures invoked_with_callers_params: old(sane(*req)) && old(in(s.methods, req.Method)) ==> arg_buildArguments_params == old(req.Params) && arg_buildArguments_method == old(s.methods[req.Method])
 //@   ensures invoked_with_built_args: calls_Call == old(calls_Call) + 1 ==> arg_Call_in == builtArgs
 //@   ensures bad_params: old(sane(*req)) && old(in(s.methods, req.Method)) && !buildOK ==> calls_Call == old(calls_Call) && (result0 != nil ==> result0.Error != nil && result0.Error.Code == -32602)
+//@   ensures id_kept: req.ID == old(req.ID)
 //@   ensures at_most_once: calls_Call == old(calls_Call) || calls_Call == old(calls_Call) + 1
 //@   ensures correlated: result0 != nil ==> result0.ID == old(req.ID) && result0.Version == "2.0"
 //@   ensures notification_silent: old(req.ID) == nil && result2 == nil ==> result0 == nil
 //@   ensures answered: old(req.ID) != nil && result2 == nil ==> result0 != nil
 //@   ensures error_or_result: result0 != nil && result0.Error != nil ==> result0.Result == nil
+
+// ---- one batch entry (the body of the worker-pool task in handleBatchRequest) ---------------------
+// The closure is verified as a function of its captured variables: s, req and addResponse are
+// pointers to the variables of handleBatchRequest. Calls of addResponse are logged like those of
+// a callback parameter. Which task runs when (the pool, the WaitGroup, the mutex inside
+// addResponse) is concurrency and outside this contract.
+//@ extern func sync.(*WaitGroup).Done
+//@ extern func errors.Is
+//@ func (*Server).handleBatchRequest$2
+//@   props C11
+//@   arith int
+//@   nosafe
+//@   requires *s != nil && *req != nil && (*s).methods != nil && (*s).listener != nil && (*s).logger != nil
+//@   modifies *
+//@   assigns buildOK, builtArgs, calls_Call, arg_Call_in, calls_buildArguments, arg_buildArguments_ctx, arg_buildArguments_params, arg_buildArguments_method
+//@   callsite addResponse@*: is_a_response: istype($0, *response) && cast($0, *response) != nil
+//@   callsite addResponse@*: correlated: cast($0, *response).ID == old((*req).ID) || (cast($0, *response).ID == nil && cast($0, *response).Error != nil && cast($0, *response).Error.Code == -32600)
+//@   callsite addResponse@*: invalid_request_code: !old(sane(**req)) ==> cast($0, *response).Error != nil && cast($0, *response).Error.Code == -32600 && cast($0, *response).Version == "2.0"
+//@   ensures at_most_one_entry: calls(addResponse) == old(calls(addResponse)) || calls(addResponse) == old(calls(addResponse)) + 1
+//@   ensures request_answered: old((*req).ID) != nil ==> calls(addResponse) == old(calls(addResponse)) + 1
+//@   ensures invalid_answered: !old(sane(**req)) ==> calls(addResponse) == old(calls(addResponse)) + 1
+//@   ensures notification_silent: old(sane(**req)) && old((*req).ID) == nil ==> calls(addResponse) == old(calls(addResponse))
+//@   ensures handler_at_most_once: calls_Call == old(calls_Call) || calls_Call == old(calls_Call) + 1
